@@ -16,7 +16,7 @@ type Pat struct {
 	K     string // lit any cls posix br grp cat alt q
 	R     rune   // lit; rng low
 	R2    rune   // rng high
-	Spell int    // lit spelling: 0 canonical, 2 \xHH, 4 \xHHHH, 8 \xHHHHHHHH
+	Spell int    // lit spelling: 0 canonical, 2 \xHH, 4..8 \x with that many hexadecimal digits
 	Name  string // cls / posix name
 	Neg   bool   // br
 	Items []*Pat // br: lit, rng, cls, posix
@@ -36,7 +36,7 @@ func isHex(c byte) bool { return (c >= '0' && c <= '9') || (c >= 'A' && c <= 'F'
 type atom struct {
 	text  string
 	r     rune
-	short int // 0: no short escape; 2 or 4: text is a short escape of r
+	short int // 0: no short escape; 2, 4..7: text is an escape of r with fewer than eight digits
 }
 
 func litAtom(r rune, spell int, inBracket bool) atom {
@@ -46,6 +46,8 @@ func litAtom(r rune, spell int, inBracket bool) atom {
 			return atom{fmt.Sprintf(`\x%02X`, r), r, 2}
 		case n == 4 && r <= 0xFFFF:
 			return atom{fmt.Sprintf(`\x%04X`, r), r, 4}
+		case n >= 5 && n <= 7 && int64(r) < int64(1)<<(4*uint(n)):
+			return atom{fmt.Sprintf(`\x%0*X`, n, r), r, n}
 		}
 		return atom{fmt.Sprintf(`\x%08X`, r), r, 0}
 	}
@@ -70,6 +72,18 @@ func litAtom(r rune, spell int, inBracket bool) atom {
 		return atom{`\` + string(r), r, 0}
 	}
 	return atom{string(r), r, 0}
+}
+
+// rangeAtomSpelled writes an end point of a range with the given number of hexadecimal digits when it fits.
+func rangeAtomSpelled(r rune, spell int) atom {
+	if spell >= 4 && spell <= 8 && int64(r) < int64(1)<<(4*uint(spell)) {
+		short := spell
+		if spell == 8 {
+			short = 0
+		}
+		return atom{fmt.Sprintf(`\x%0*X`, spell, r), r, short}
+	}
+	return rangeAtom(r)
 }
 
 func rangeAtom(r rune) atom {
@@ -104,9 +118,9 @@ func (p *Pat) atoms(out *[]atom) {
 			case "lit":
 				*out = append(*out, litAtom(it.R, it.Spell, true))
 			case "rng":
-				*out = append(*out, rangeAtom(it.R))
+				*out = append(*out, rangeAtomSpelled(it.R, it.Spell))
 				raw("-")
-				*out = append(*out, rangeAtom(it.R2))
+				*out = append(*out, rangeAtomSpelled(it.R2, it.Spell))
 			default:
 				raw(it.Name)
 			}
@@ -146,7 +160,7 @@ func (p *Pat) String() string {
 	for i, a := range as {
 		t := a.text
 		if a.short != 0 {
-			// a 2/4-digit escape followed by a hexadecimal digit would be read as a longer escape
+			// an escape of fewer than eight digits followed by a hexadecimal digit would be read as a longer escape
 			next := ""
 			for j := i + 1; j < len(as) && next == ""; j++ {
 				next = as[j].text
